@@ -145,6 +145,11 @@ class HTTP1Connection(httputil.HTTPConnection):
         self._write_finished = False
         # True when we have read the entire incoming body.
         self._read_finished = False
+        # True when we have given up on reading the body (body_timeout).
+        # The delegate has then been told that the connection is closed, so
+        # the body reader (which may still be running) must not pass it any
+        # more data.
+        self._read_abandoned = False
         # _finish_future resolves when all data has been written and flushed
         # to the IOStream.
         self._finish_future: Future[None] = Future()
@@ -271,6 +276,7 @@ class HTTP1Connection(httputil.HTTPConnection):
                             )
                         except gen.TimeoutError:
                             gen_log.info("Timeout reading body from %s", self.context)
+                            self._read_abandoned = True
                             self.stream.close()
                             return False
             self._read_finished = True
@@ -650,6 +656,8 @@ class HTTP1Connection(httputil.HTTPConnection):
                 min(self.params.chunk_size, content_length), partial=True
             )
             content_length -= len(body)
+            if self._read_abandoned:
+                return
             if not self._write_finished or self.is_client:
                 with _ExceptionLoggingContext(app_log):
                     ret = delegate.data_received(body)
@@ -681,6 +689,8 @@ class HTTP1Connection(httputil.HTTPConnection):
                     min(bytes_to_read, self.params.chunk_size), partial=True
                 )
                 bytes_to_read -= len(chunk)
+                if self._read_abandoned:
+                    return
                 if not self._write_finished or self.is_client:
                     with _ExceptionLoggingContext(app_log):
                         ret = delegate.data_received(chunk)
@@ -694,6 +704,8 @@ class HTTP1Connection(httputil.HTTPConnection):
         self, delegate: httputil.HTTPMessageDelegate
     ) -> None:
         body = await self.stream.read_until_close()
+        if self._read_abandoned:
+            return
         if not self._write_finished or self.is_client:
             with _ExceptionLoggingContext(app_log):
                 ret = delegate.data_received(body)
